@@ -262,6 +262,11 @@ func directedScenarios() []directedT {
 				{Kind: "cmd", Arg: "go infinite"}, {Kind: "release", K: 2, D: 1}, {Kind: "cmd", Arg: "stop"}, {Kind: "cmd", Arg: "isready"}},
 			rules: []sched.Rule{{Point: "engine.halt.end", Occ: 1, Until: "uci.fwd.exit", UntilOcc: 1, Timeout: h}},
 		},
+		{ // quit while thousands of search infos are backlogged because the GUI reads slowly
+			name: "quit-with-backlog",
+			steps: []stepT{{Kind: "cmd", Arg: "position startpos"}, {Kind: "auto", D: 6000}, {Kind: "cmd", Arg: "go infinite"},
+				{Kind: "stall", D: 400}, {Kind: "rawcmd", Arg: "quit"}},
+		},
 		{ // quit while a completion is on its way
 			name: "quit-during-completion",
 			steps: []stepT{{Kind: "cmd", Arg: "position startpos"}, {Kind: "cmd", Arg: "go depth 1"}, {Kind: "release", K: 1, D: 1},
@@ -364,7 +369,9 @@ func ucisched(args []string) {
 			}
 		}
 		for _, st := range steps {
-			flushOut()
+			if st.Kind != "stall" && st.Kind != "rawcmd" {
+				flushOut()
+			}
 			switch st.Kind {
 			case "cmd":
 				if closed || s.Dead {
@@ -395,6 +402,25 @@ func ucisched(args []string) {
 				}
 			case "pause":
 				time.Sleep(time.Duration(st.D) * time.Millisecond)
+			case "stall": // the GUI does not read the engine's output for a while
+				time.Sleep(time.Duration(st.D) * time.Millisecond)
+				continue
+			case "auto": // the stub search completes its iterations by itself up to this depth
+				if stub != nil {
+					stub.mu.Lock()
+					stub.auto = st.D
+					stub.mu.Unlock()
+				}
+			case "rawcmd": // handed over without waiting for an idle loop (the loop may be busy writing output)
+				if closed || s.Dead {
+					continue
+				}
+				if !s.Send(st.Arg, 10*time.Second) {
+					c.Mark("harness.undelivered", st.Arg)
+				}
+				if st.Arg == "quit" {
+					closed = true
+				}
 			case "eof":
 				if !closed {
 					c.Mark("harness.eof")
